@@ -293,9 +293,11 @@ CLAIMED['C18'] = (
     'Diffie-Hellman operations is untouched (the DH classes are TRUSTED contracts that count key generations and '
     'shared-secret computations) -- and the exception carries exactly that expected cookie; on every normal return the '
     'cookie condition held.  Mutations (address dropped from the hash, comparison inverted, DH before the check) fail '
-    'named obligations.',
-    'Not decided: that the controller arms the secret iff the half-open count exceeds the threshold (the count is a '
-    'generator sum in dispatch_message, not stated), that the caller turns CookieRequired into a bare COOKIE notification '
+    'named obligations.  Arming (dispatch_message, verified): the new responder IKE_SA holds the controller\'s secret '
+    'when the datagram is handed to it if it and every IKE_SA already listed are half-open (state before ESTABLISHED) '
+    'and they outnumber the threshold, and holds none when the table is no larger than the threshold.',
+    'Not decided: arming for mixed tables (the half-open count, a generator sum, is modelled exactly only at its two '
+    'ends: all kept / none kept; in between it is an unknown between 0 and the length), that the caller turns CookieRequired into a bare COOKIE notification '
     'and that the responder IKE_SA is discarded (process_ike_sa_init_request / _process_request, ASSUMED handler), and the '
     'initiator retry with the cookie placed first (process_ike_sa_init_response, ASSUMED).  Payload / notify lookup are '
     'ASSUMED one-line contracts over uninterpreted functions; HMAC is uninterpreted.' + TIERB_NOTE,
